@@ -58,7 +58,12 @@ def symbolic_int_group(world, ev):
     r.sort(key=lambda o: -len(o.state.pc))
     r[0].state.ctor_pc = list(r[0].state.pc)
     r[0].state.all_ctor_pcs = [list(o.state.pc) for o in r]
-    r[0].state.pc = []       # constructor assertions are facts about the group, not about later calls
+    # constructor assertions are facts about the group, not about later calls - except case splits on
+    # the bit lengths of p and q, which decide the *form* of the stored sizes: later calls that
+    # recompute a size must land on the same case
+    r[0].state.pc = [c for c in r[0].state.pc[len(world.static.pc):]
+                     if any(is_app(x, "bit_length") for x in subterms(c[0]))]
+    r[0].state.pc = list(world.static.pc) + r[0].state.pc
     return r[0].state, r[0].value, {"p": p, "q": q, "g": g}
 
 
@@ -187,7 +192,13 @@ def formula_functions(world, ev):
             elif nargs == 1:
                 res[v.qual] = classify_double(n, Q, d, consts, hs)
         except AnalysisError as e:
-            res[v.qual] = {"kind": None, "error": str(e)}
+            # not in the straight-line subset of the polynomial interpreter: let the evaluator produce the terms
+            try:
+                out = polys_by_evaluation(world, v, nargs, Q)
+                res[v.qual] = classify_add_out(out, Q, d, n.name) if nargs == 2 else classify_double_out(out, Q, d, n.name)
+                res[v.qual]["via"] = "evaluator"
+            except AnalysisError as e2:
+                res[v.qual] = {"kind": None, "error": "%s; %s" % (e, e2)}
     return res
 
 
@@ -201,8 +212,12 @@ def classify_add(node, Q, d, consts, helpers=None):
     P1 = _pt(Q, "x1", "y1", "z1")
     P2 = _pt(Q, "x2", "y2", "z2")
     out = s.run(node, [P1, P2])
+    return classify_add_out(out, Q, d, node.name)
+
+
+def classify_add_out(out, Q, d, name="?"):
     if not (isinstance(out, tuple) and len(out) == 4):
-        raise AnalysisError("%s does not return a 4-tuple" % node.name)
+        raise AnalysisError("%s does not return a 4-tuple" % name)
     X3, Y3, Z3, T3 = out
     x1, y1, x2, y2 = (Poly.var(Q, v) for v in ("x1", "y1", "x2", "y2"))
     dd = Poly.const(Q, d)
@@ -240,8 +255,45 @@ def classify_double(node, Q, d, consts, helpers=None):
     s = Straight(Q, consts, helpers=helpers)
     P1 = _pt(Q, "x1", "y1", "z1")
     out = s.run(node, [P1])
+    return classify_double_out(out, Q, d, node.name)
+
+
+def polys_by_evaluation(world, f, nargs, Q):
+    """The coordinates returned by the formula function f on symbolic projective inputs, as
+    polynomials - obtained with the forking evaluator (f and the arithmetic helpers it calls
+    inlined), so any spelling the evaluator understands (comprehensions over literal tuples,
+    helper functions, keyword arguments) is accepted.  One path, no raise, else AnalysisError."""
+    from .evalr import Ev, Policy
+    from .poly import term_poly
+    pol = Policy(world)
+    work = [f]
+    while work:
+        g = work.pop()
+        pol.force_inline.add(g.qual)
+        for n in ast.walk(g.node):
+            if isinstance(n, ast.Call) and isinstance(n.func, ast.Name):
+                v = world.static_lookup(g.mod, n.func.id)
+                if isinstance(v, FuncV) and v.qual not in pol.force_inline and pol.is_leaf_arith(v.node, v.mod):
+                    work.append(v)
+    e2 = Ev(world, policy=pol)
+    pts, atoms = [], {}
+    for i in range(1, nargs + 1):
+        x, y, z = (Sym("%s%d" % (c, i), "int") for c in "xyz")
+        atoms.update({"x%d" % i: x, "y%d" % i: y, "z%d" % i: z})
+        pts.append(TupleV([mk_app("Mult", (x, z)), mk_app("Mult", (y, z)), z, mk_app("Mult", (mk_app("Mult", (x, y)), z))]))
+    outs = e2.run(f, pts, [], world.static.fork())
+    if len(outs) != 1 or outs[0].kind != "return" or not isinstance(outs[0].value, TupleV) or len(outs[0].value.items) != 4:
+        raise AnalysisError("%s: not one returning path with a 4-tuple on symbolic points (%d outcomes)" % (f.node.name, len(outs)))
+    n0 = len(atoms)
+    ps = tuple(term_poly(t, Q, atoms) for t in outs[0].value.items)
+    if len(atoms) != n0:
+        raise AnalysisError("%s: coordinates are not polynomials of the inputs (%s)" % (f.node.name, show(list(atoms.values())[-1], maxdepth=3)))
+    return ps
+
+
+def classify_double_out(out, Q, d, name="?"):
     if not (isinstance(out, tuple) and len(out) == 4):
-        raise AnalysisError("%s does not return a 4-tuple" % node.name)
+        raise AnalysisError("%s does not return a 4-tuple" % name)
     X3, Y3, Z3, T3 = out
     x1, y1, z1 = (Poly.var(Q, v) for v in ("x1", "y1", "z1"))
     dd = Poly.const(Q, d)
@@ -283,7 +335,7 @@ def is_ladder_function(world, ev, f):
     k = ev.policy.classify(f)
     if k == "recursive":
         return True
-    if k != "loop" or isinstance(f.node, ast.Lambda) or len(f.node.args.args) < 2:
+    if k != "loop" or isinstance(f.node, ast.Lambda) or len(f.node.args.args) + len(f.node.args.kwonlyargs) < 2:
         return False
     forms = formula_functions(world, ev)
     doubles = {q for q, v in forms.items() if v.get("kind") == "double"}
@@ -357,6 +409,50 @@ def msb_digits_function_ok(world, ev, g):
     return _DIG_CACHE[key]
 
 
+def lsb_digits_generator_ok(world, ev, g):
+    """Is g(n) a generator yielding the binary digits of n >= 0, least significant first
+    (`while n: yield n & 1; n >>= 1`)?  One symbolic iteration: under n != 0 exactly n & 1 is
+    yielded and n becomes n >> 1; the generator ends when n = 0."""
+    from .evalr import Ev
+    key = (id(world), "lsbgen", g.qual)
+    if key in _DIG_CACHE:
+        return _DIG_CACHE[key]
+    _DIG_CACHE[key] = (False, "not a digit generator")
+    if isinstance(g.node, ast.Lambda) or len(g.node.args.args) != 1 or not ev.policy.is_generator(g):
+        return _DIG_CACHE[key]
+    pname = g.node.args.args[0].arg
+    e2 = Ev(world, loop_mode="once")
+    e2.import_all()
+    e2.policy.force_inline.add(g.qual)
+    n = Sym("n", "int")
+    try:
+        outs = e2.run(g, [n], [], world.static.fork())
+    except AnalysisError as e:
+        _DIG_CACHE[key] = (False, str(e))
+        return _DIG_CACHE[key]
+    if len(e2.loop_entries) != 1 or any(o.kind != "return" for o in outs):
+        return _DIG_CACHE[key]
+    carried = e2.loop_entries[0][1]
+    rems = [k for k, v in carried.items() if v == n]
+    if len(carried) != 1 or len(rems) != 1:
+        _DIG_CACHE[key] = (False, "the loop carries %s, not just the remaining scalar" % sorted(carried))
+        return _DIG_CACHE[key]
+    rr = Sym("loop:" + rems[0], "int")
+    nonzero = lambda conds, t, want: (t, want) in conds or (mk_app("NotEq", (t, Const(0))), want) in conds or \
+        (mk_app("Eq", (t, Const(0))), not want) in conds or (mk_app("Lt", (Const(0), t)), want) in conds
+    why = None if e2.continues else "no way round the loop"
+    for p in e2.continues:
+        conds = {(t, pol) for (t, pol, _) in p.st.pc}
+        ys = p.val["locals"].get("<yields>")
+        nr = p.val["locals"].get(rems[0])
+        oky = isinstance(ys, tuple) and len(ys) == 1 and ys[0] in (mk_app("BitAnd", (rr, Const(1))), mk_app("Mod", (rr, Const(2))))
+        okr = nr in (mk_app("RShift", (rr, Const(1))), mk_app("FloorDiv", (rr, Const(2))))
+        if not (oky and okr and nonzero(conds, rr, True)):
+            why = "an iteration is not  yield n & 1; n >>= 1  under n != 0"
+    _DIG_CACHE[key] = (why is None, why or "yields n & 1 and shifts n right while n != 0: the binary digits of n, least significant first")
+    return _DIG_CACHE[key]
+
+
 def ladder_call(world, ev, c):
     """c = fn:<ladder>(point, scalar[, function arguments]) -> dict(func, pt, n, extra, uses) or None.
     A ladder is a self-recursive package function; parameters after the first two must be bound
@@ -364,7 +460,7 @@ def ladder_call(world, ev, c):
     if not (isinstance(c, App) and c.f.startswith("fn:") and len(c.args) >= 2 and not c.kw):
         return None
     f = func_by_qual(world, c.f[3:])
-    if f is None or not is_ladder_function(world, ev, f) or len(f.node.args.args) != len(c.args):
+    if f is None or not is_ladder_function(world, ev, f) or len(f.node.args.args) + len(f.node.args.kwonlyargs) != len(c.args):
         return None
     extra = tuple(c.args[2:])
     if not all(isinstance(a, FuncV) for a in extra):
@@ -380,7 +476,8 @@ def ladder_instances(world, ev, m):
     for name, f in sorted(m.env.items()):
         if not isinstance(f, FuncV) or isinstance(f.node, ast.Lambda) or not is_ladder_function(world, ev, f):
             continue
-        np_ = len(f.node.args.args)
+        pnames = [a.arg for a in f.node.args.args] + [a.arg for a in f.node.args.kwonlyargs]
+        np_ = len(pnames)
         if np_ == 2:
             out.append((f, ()))
             continue
@@ -392,8 +489,11 @@ def ladder_instances(world, ev, m):
                 continue
             for c in ast.walk(node):
                 if isinstance(c, ast.Call) and isinstance(c.func, ast.Name) and world.static_lookup(mod, c.func.id) == f \
-                        and len(c.args) == np_ and not c.keywords:
-                    ex = tuple(world.static_lookup(mod, a.id) if isinstance(a, ast.Name) else None for a in c.args[2:])
+                        and len(c.args) + len(c.keywords) == np_ and all(k.arg in pnames[len(c.args):] for k in c.keywords):
+                    bound = list(c.args) + [None] * (np_ - len(c.args))
+                    for k in c.keywords:
+                        bound[pnames.index(k.arg)] = k.value
+                    ex = tuple(world.static_lookup(mod, a.id) if isinstance(a, ast.Name) else None for a in bound[2:])
                     if all(isinstance(e, FuncV) for e in ex) and tuple(e.qual for e in ex) not in seen:
                         seen.add(tuple(e.qual for e in ex))
                         out.append((f, ex))
@@ -425,7 +525,17 @@ def _truth_paths(world, f, arg):
             res.append(conds | {(v, True)})       # `return <comparison>`: true exactly when it holds
         else:
             return None
-    return res
+    def flat(cs):
+        out = set()
+        for (t, pol) in cs:
+            while is_app(t, "bool") and len(t.args) == 1:
+                t = t.args[0]
+            if is_app(t, "And") and pol is True:
+                out |= flat({(a, True) for a in t.args})       # a true conjunction: each conjunct holds
+            else:
+                out.add((t, pol))
+        return out
+    return [flat(c) for c in res]
 
 
 _ID_CACHE = {}
